@@ -16,7 +16,7 @@ pub fn prop() -> Prop {
          be Ok. One signature per diagnostic kind reported without a schema. Non-trivial: the document uses a \
          directive or a variable; distinct by the two texts.",
     )
-    .random("pairs", check, |t| if t == Tier::Quick { 60_000 } else { 1_200_000 }, |t| if t == Tier::Quick { 700 } else { 1000 })
+    .random("pairs", check, |t| if t == Tier::Quick { 180_000 } else { 2_000_000 }, |t| if t == Tier::Quick { 700 } else { 1000 })
     .text(check_text)
     .case_timeout(120)
     .assumptions(&["the antecedent is apollo's own verdict with the schema (ExecutableDocument::parse_and_validate is Ok) confirmed by the reference validator (Valid); the property is an implication between two apollo entry points"])
